@@ -206,8 +206,13 @@ def tagged_union_model(rep: common.Report) -> int:
         data = bridge.dec_data(c["data"])
         label = f"TaggedUnion{[(n_, bridge.type_expr(T)) for n_, T in c['tags']]} <- {json.dumps(data)} (additional_properties={c['addl']}, fall_back_on_default={c['fbd']})"
         n += 1
+        kw = {"additional_properties": c["addl"], "fall_back_on_default": c["fbd"]}
+        skw = {}
+        if u.aliaser(c["ali"]) is not None:
+            kw["aliaser"] = skw["aliaser"] = u.aliaser(c["ali"])
+            label += f" aliaser={c['ali']}"
         try:
-            got = deserialize(TU, data, additional_properties=c["addl"], fall_back_on_default=c["fbd"])
+            got = deserialize(TU, data, **kw)
             out = {"kind": "ok", "tagged": get_tagged(got)}
         except ValidationError as err:
             out = {"kind": "verr", "errs": bridge.enc_errors(err.errors), "order_ok": bridge.errors_order_ok(err.errors)}
@@ -234,7 +239,7 @@ def tagged_union_model(rep: common.Report) -> int:
             if not same:
                 rep.violation(f"[image] {label}: got {tag}={val!r}, expected {json.dumps(exp['v'])[:200]}", {"case": c})
                 continue
-            ser = serialize(TU, got)
+            ser = serialize(TU, got, **skw)
             from harness import engine_ser
             try:
                 ok = engine_ser.ser_equal(c["ser"], bridge.enc_data(ser))
@@ -242,7 +247,7 @@ def tagged_union_model(rep: common.Report) -> int:
                 ok = False
             if not ok:
                 rep.violation(f"[serialize] {label}: serialize gives {ser!r}, expected {json.dumps(c['ser'])[:200]}", {"case": c})
-            elif get_tagged(deserialize(TU, ser, additional_properties=c["addl"], fall_back_on_default=c["fbd"]))[0] != tag:
+            elif get_tagged(deserialize(TU, ser, **kw))[0] != tag:
                 rep.violation(f"[roundtrip] {label}: {ser!r} does not come back under tag {tag}", {"case": c})
         else:
             if out["kind"] == "ok":
